@@ -379,6 +379,13 @@ def hsw(st):
     return st.ghost['hsw']
 
 
+def rej(st):
+    """ghost: ... and it was Rejected"""
+    if 'rej' not in st.ghost:
+        st.ghost['rej'] = fresh('rej0', B)
+    return st.ghost['rej']
+
+
 MSG_KINDS = ('Binary', 'Text', 'Ping', 'Pong', 'Close-code', 'Close-nocode')
 
 
@@ -471,13 +478,15 @@ class WsFeed(ProducerContract):
         W = world(ip, session='some')
         hs(ip.st)
         hsw(ip.st)
+        rej(ip.st)
         return dict(self=W.ws, data=mk(ip, T.Bytes(BYTES), 'data'))
 
     def requires(self, ip, a):
         W = ip.st.ghost['W']
         g = ip.st.ghost[W.lock.key]
         return [('lock-free-or-reentrant', BoolVal(g['held'] == 0 or g['reentrant'])),
-                ('response-handed-on-iff-turned-into-an-event', hs(ip.st) == hsw(ip.st))]
+                ('response-handed-on-iff-turned-into-an-event', hs(ip.st) == hsw(ip.st)),
+                ('a-rejected-websocket-is-closed', Implies(rej(ip.st), ip.st.get(W.state, 'closed')))]
 
     def gen_ghost(self, ip, a):
         return dict(stage=IntVal(0))     # 0 running, 1 after Rejected, 2 after ProtocolError
@@ -489,8 +498,7 @@ class WsFeed(ProducerContract):
         W = ip.st.ghost['W']
         return [('heap', W.state, 'closing', T.Bool), ('heap', W.state, 'closed', T.Bool),
                 ('heap', W.state, 'sent_close_time', T.Opt(T.Real)),
-                ('heap', W.session, '_sock', T.Opt(T.Const(W.sock))),
-                ('ghost', 'hs', lambda ip: fresh('hs', B)), ('ghost', 'hsw', lambda ip: fresh('hsw', B))]
+                ('heap', W.session, '_sock', T.Opt(T.Const(W.sock)))]
 
     # ---- yields
     def yields(self, ip, a):
@@ -508,6 +516,8 @@ class WsFeed(ProducerContract):
             def f(ip, a, g, v):
                 g['stage'] = IntVal(k)
                 ip.st.ghost['hsw'] = BoolVal(True)
+                if k == 1:
+                    ip.st.ghost['rej'] = BoolVal(True)
                 if ip.reading == 'call':
                     ip.st.ghost['hs'] = BoolVal(True)
             return f
@@ -516,7 +526,7 @@ class WsFeed(ProducerContract):
             return lambda ip, a, g: event_obj(ip, cls, **fields)
 
         def running(ip, a, g):
-            return And(g['stage'] == 0, hsw(ip.st))
+            return And(g['stage'] == 0, hsw(ip.st), Not(rej(ip.st)))
 
         def msg_event(cls, field, ord_):
             def guarantee(ip, a, g, v):
@@ -558,6 +568,14 @@ class WsFeed(ProducerContract):
                       after=stage(2), site='handler', tags=('C04',)),
         ]
 
+    def suspend_inv(self, ip, a, g):
+        st = ip.st
+        W = st.ghost['W']
+        closed = st.get(W.state, 'closed')
+        closed = BoolVal(closed) if isinstance(closed, bool) else closed
+        return [('response-handed-on-iff-turned-into-an-event', hs(st) == hsw(st)),
+                ('a-rejected-websocket-is-closed', Implies(rej(st), closed))]
+
     def step_effects(self, ip, a, gen, label):
         st = ip.st
         # a step may have written: a Close echo (after Closing), or the 1002 Close that follows a
@@ -578,7 +596,8 @@ class WsFeed(ProducerContract):
 
     def p_done(self, ip, a, old, g):
         return [('never-exhausted-after-a-protocol-error', g['stage'] != 2, ('C04',)),
-                ('response-handed-on-iff-turned-into-an-event', Or(hs(ip.st) == hsw(ip.st), ip.st.get(ip.st.ghost['W'].state, 'closed')))]
+                ('response-handed-on-iff-turned-into-an-event', Or(hs(ip.st) == hsw(ip.st), ip.st.get(ip.st.ghost['W'].state, 'closed'))),
+                ('a-rejected-websocket-is-closed', Implies(rej(ip.st), ip.st.get(ip.st.ghost['W'].state, 'closed')))]
 
     # ---- while suspended the application may send / close()
     def resume_havoc(self, ip, a, k):
@@ -616,9 +635,14 @@ class WsFeed(ProducerContract):
                     ('heap', W.session, '_sock', T.Opt(T.Const(W.sock))),
                     ('ghost', 'hs', lambda ip: fresh('hs', B)), ('ghost', 'hsw', lambda ip: fresh('hsw', B))]
 
-        def inv0(ip):
+        def inv1(ip):
             g = ip.st.ghost['self_gen']
-            return [('still-running', g['stage'] == 0), ('response-handed-on-iff-turned-into-an-event', hs(ip.st) == hsw(ip.st))]
+            return [('still-running', g['stage'] == 0), ('response-handed-on-iff-turned-into-an-event', hs(ip.st) == hsw(ip.st)),
+                    ('not-rejected', Not(rej(ip.st)))]
+
+        def inv0(ip):
+            W = ip.st.ghost['W']
+            return inv1(ip) + [('not-closed-at-the-head-of-the-message-loop', Not(ip.st.get(W.state, 'closed')))]
         def mods0(ip):
             W = ip.st.ghost['W']
             return common_mods(ip) + [('heap', W.stream, '_decompress', T.Const(None))]
@@ -630,7 +654,7 @@ class WsFeed(ProducerContract):
         if k == 0:
             return LoopSpec(inv=inv0, modifies=mods0)
         if k == 1:
-            return LoopSpec(inv=inv0, modifies=mods1, locals={'event': T.Const(None)})
+            return LoopSpec(inv=inv1, modifies=mods1, locals={'event': T.Const(None)})
         return None
 
     def received(self, ip, a, k, v):
